@@ -17,7 +17,7 @@
 //                        window in which closedChan of this end closed, window in which inputErr closed
 //       facts for Write: stall clo chi olo ohi creq  stall=1 if the send queue cannot move (peer stopped reading),
 //                        closedChan window, outputErr window, creq = time closeRequested was set (-1 never)
-//       facts for Close: first stall rearm  (first=1: first Close of that object; rearm=1: goroutine dump shows Mux.Close waiting for a server event loop that re-armed its read timeout)
+//       facts for Close: first stall   (first=1: first Close of that object)
 //   X id                                       end of scenario                                                     impl "-"
 // The model runner replays D/I/T through Deadline.v (effective deadline of every call under the code's
 // reset-on-return rule) and classifies every T line with Lifecycle.v's exit table; it prints the observed class
@@ -532,8 +532,8 @@ func (rn *runner) run(sc *Scenario) {
 	tdBlocked := false
 	select {
 	case <-tdDone:
-	case <-time.After(time.Duration(readTimeoutUs)*time.Microsecond + 8*time.Second):
-		// longer than the one wait that is a known finding (a re-armed event-loop read timeout)
+	case <-time.After(20 * time.Second):
+		// closing both muxes is a matter of seconds (1 s per session at worst); after 20 s it is a hang
 		tdBlocked = true
 	}
 	tdUs := time.Since(td0).Microseconds()
@@ -978,20 +978,7 @@ func (rn *runner) emit(w *world, sc *Scenario, get func(i int) (bool, int64, str
 				if sc.Stall && op.Sess == 0 && op.Kind == "Close" && op.End == "c" {
 					st = 1
 				}
-				rearm := 0
-				if !done || t1-rc.t0 > 3_000_000 {
-					dur := int64(-1)
-					if done {
-						dur = t1 - rc.t0
-					}
-					w.dumpMu.Lock()
-					dump := rc.dump
-					w.dumpMu.Unlock()
-					if _, ra := blockedCloseCause(op.Kind, dump, dur); ra {
-						rearm = 1
-					}
-				}
-				facts = fmt.Sprintf("%d %d %d", first, st, rearm)
+				facts = fmt.Sprintf("%d %d", first, st)
 			}
 			t1x := t1
 			if !done {
